@@ -683,6 +683,15 @@ class Channel(typing.ContextManager):
 
         s = s.encode("utf-8") if isinstance(s, str) else s
 
+        # Check the whole payload before sending any of it: if a later slice
+        # was refused, the remote would be left with a partial line.
+        if not _ignore_blacklist:
+            for blacklisted in self._write_blacklist:
+                if blacklisted in s:
+                    raise tbot.error.IllegalDataException(
+                        f"attempted to write a forbidden byte ({chr(blacklisted)!r})"
+                    )
+
         start_time = time.monotonic()
 
         # Let's not overwhelm the channel-io by sending too much at once...
